@@ -64,7 +64,9 @@ def rule_layer(ctx, prop: str) -> RuleResult:
                         # constructing IR in stdlib is allowed only for expressions handed to primitives
                         pass
 
-    scan(ix.all_funcs())
+    # unit tests of the cursor layer legitimately call the edit API; user-level code
+    # (apps, examples) must not
+    scan(f for f in ix.all_funcs() if not f.file.startswith("tests/"))
     if n_edit < 100 or n_do < 50:
         raise AnalysisError(f"LAYER: expected >= 100 edit sites and >= 50 Do* call sites, found {n_edit}/{n_do}")
     res.nontrivial = res.instances
